@@ -74,7 +74,10 @@ SchFold(c, o, ev) ==
                             THEN {s \in @ : ~(s.sid = ev.sid /\ s.src = ev.src /\ s.kind = "once")} ELSE @]
     [] ev.e = "add" ->
          LET s == [src |-> ev.src, sid |-> ev.sid, kind |-> ev.s, mins |-> ev.ids, T |-> ev.n, cancel |-> ~ev.ok]
-         IN [o1 EXCEPT !.sch = {x \in @ : x.sid # ev.sid} \cup {s}, !.known = {x \in @ : x.sid # ev.sid} \cup {s}]
+         (* an id that was used before (its one-shot has fired and is gone) names a NEW schedule from now on *)
+         IN [o1 EXCEPT !.sch = {x \in @ : x.sid # ev.sid} \cup {s}, !.known = {x \in @ : x.sid # ev.sid} \cup {s},
+                       !.once = [x \in DOMAIN @ \ {ev.sid} |-> @[x]],
+                       !.fs = [x \in DOMAIN @ \ {ev.sid} |-> @[x]]]
     [] ev.e = "remove" -> [o1 EXCEPT !.sch = {x \in @ : ~(x.sid = ev.sid /\ x.src = ev.src)}]
     [] OTHER -> o1
 
